@@ -183,6 +183,10 @@ def check_acc(rep, rule, c, what, a, term_text, env, L, term_cond=None, outer=()
         rep.bad(rule, site, what, f"{len(a.terms)} kinds of term are OR-ed in; expected exactly the subordinate's own signal")
         return False
     term, tgen, tdsl, ln = a.terms[0]
+    if c.norm(term) != want_term and (dl._mux_mask_pair(want_term, c.norm(term)) or dl._mux_mask_pair(c.norm(term), want_term)):
+        rep.unk(rule, site, what, f"term is {c.show(term)}: a mask with a replicated strobe equals {ir.show(want_term)} exactly when the replication "
+                "count is the operand's width, which is not known here")
+        return False
     if c.norm(term) != want_term:
         other = [fr[1] for fr in tgen if fr[0] == 'for' and fr[1] != L.id and fr[1] not in outer]
         extra = ""
